@@ -137,6 +137,20 @@ func (t *connectTransaction) WillTopic(snWillTopic *snPkts1.WillTopic) error {
 		return nil
 	}
 
+	// An empty WILLTOPIC means "no will".
+	if snWillTopic.WillTopic == "" {
+		t.mqConnect.WillFlag = false
+	}
+	// The will must be translatable to a valid MQTT CONNECT.
+	if snWillTopic.QOS > 2 || hasWildcard(snWillTopic.WillTopic) {
+		if err := t.SendConnack(snPkts1.RC_NOT_SUPPORTED); err != nil {
+			return err
+		}
+		err := fmt.Errorf("invalid will QoS or will topic in %v", snWillTopic)
+		t.Fail(err)
+		return err
+	}
+
 	t.mqConnect.WillQos = snWillTopic.QOS
 	t.mqConnect.WillRetain = snWillTopic.Retain
 	t.mqConnect.WillTopic = snWillTopic.WillTopic
